@@ -13,6 +13,15 @@
  *   T natives <name>=<0|1> ...                                                (the implementation's flags, one line)
  * outcome: ok | sandbox | hidden | err
  *
+ *   X <signal> <op line>                                                      the evaluating child died (14 = per-program alarm: hang)
+ * outcome: ok | sandbox | hidden | err
+ *
+ * Process model (the check must never hang or die with the code under test): the parent never touches the
+ * evaluator.  `gen`: a first child initialises Icinga and GENERATES the op lines (reflection, compile for root=);
+ * then — as in `ops FILE` — batches of lines are EXECUTED in forked children that initialise Icinga themselves,
+ * publish the index of the line they work on in shared memory and run every program under alarm(); when a child
+ * dies the parent prints `X <signal> <line>` and continues after that line in a fresh child.
+ *
  * Modes:  gen --seed S --tier quick|thorough        ops FILE
  */
 #include "common.hpp"
@@ -39,7 +48,10 @@
 #include <functional>
 #include <map>
 #include <set>
+#include <sys/mman.h>
 #include <sys/stat.h>
+#include <sys/wait.h>
+#include <csignal>
 
 using namespace icinga;
 using namespace vh;
@@ -57,9 +69,10 @@ VH_ROB_STATIC(RobExecScript, bool (*type)(bhttp::request<bhttp::string_body>&, b
 static const char *SECRET = "S3CR3T-c19-pw";
 static String l_DataDir;
 static ApiUser::Ptr l_User;
+static ApiUser::Ptr l_UserPF;      /* a user whose permission on the queried type carries a permission FILTER */
+static const double NUM_MARKER = 987654321;
 static Host::Ptr l_Host;
-static std::string l_Current;      /* the line being evaluated (for the exit hook) */
-static bool l_Finished = false;
+static std::string l_Current;
 
 /* ---------------------------------------------------------------- canonical deep dump */
 
@@ -216,20 +229,41 @@ static std::string Classify(const std::string& msg)
 	return "err";
 }
 
-static Outcome EvalFilterSite(const String& text)
+static Outcome EvalFilterSite(const String& text, const ApiUser::Ptr& user)
 {
 	QueryDescription qd;
 	qd.Types.insert("Host");
 	qd.Permission = "objects/query/Host";
 	Dictionary::Ptr query = new Dictionary({ { "type", "Host" }, { "filter", text } });
 	try {
-		std::vector<Value> res = FilterUtility::GetFilterTargets(qd, query, l_User);
+		std::vector<Value> res = FilterUtility::GetFilterTargets(qd, query, user);
 		return { "ok", "targets=" + std::to_string(res.size()) };
 	} catch (const std::exception& ex) {
 		std::string m = DiagnosticInformation(ex, false).CStr();
 		return { Classify(m), m };
 	}
 }
+
+/* Does a value the script computed contain one of the markers planted in hidden fields?  (Object handles are
+ * not values: what a site does with a returned object is that site's business — see F-C19b for the console.) */
+static bool ContainsMarker(const Value& v, int depth)
+{
+	if (depth <= 0) return false;
+	if (v.IsString()) return std::string(((String)v).CStr()).find(SECRET) != std::string::npos || std::string(((String)v).CStr()).find("987654321") != std::string::npos;
+	if (v.IsNumber()) return (double)v == NUM_MARKER;
+	if (v.IsObjectType<Array>()) {
+		Array::Ptr a = v;
+		ObjectLock olock(a);
+		for (const Value& x : a) if (ContainsMarker(x, depth - 1)) return true;
+	} else if (v.IsObjectType<Dictionary>()) {
+		Dictionary::Ptr d = v;
+		ObjectLock olock(d);
+		for (const Dictionary::Pair& kv : d) if (ContainsMarker(kv.first, 1) || ContainsMarker(kv.second, depth - 1)) return true;
+	}
+	return false;
+}
+
+static bool l_ValueLeak = false;
 
 static Outcome EvalWithFrame(const String& text, bool allocLocals, const Object::Ptr& target, const String& varName)
 {
@@ -239,6 +273,11 @@ static Outcome EvalWithFrame(const String& text, bool allocLocals, const Object:
 		ScriptFrame frame(allocLocals, frameNS);
 		frame.Sandboxed = true;
 		bool r = FilterUtility::EvaluateFilter(frame, expr.get(), target, varName);
+		/* EvaluateFilter only hands back a truth value; evaluate once more in the same frame to see the value */
+		try {
+			Value v = expr->Evaluate(frame);
+			if (ContainsMarker(v, 6)) l_ValueLeak = true;
+		} catch (const std::exception&) { }
 		return { "ok", r ? "true" : "false" };
 	} catch (const std::exception& ex) {
 		std::string m = DiagnosticInformation(ex, false).CStr();
@@ -246,25 +285,30 @@ static Outcome EvalWithFrame(const String& text, bool allocLocals, const Object:
 	}
 }
 
-/* Where does the secret occur in the console's JSON result?  bit 1: as the value of a key `password`
- * of a serialized object (the serializer dumped the object's fields); bit 0: anywhere else. */
-static void FindSecret(const Value& v, const String& key, int& mask)
+/* Where does a marker occur in the console's JSON result?  bit 1: as the value of a key that is the name of a
+ * no_user_view field, i.e. inside a serialized object (the serializer dumped the object's fields); bit 0:
+ * anywhere else. */
+static std::set<std::string> l_NuvFieldNames;     /* names of all no_user_view fields of all types (reflection, Setup) */
+
+static void FindSecret(const Value& v, bool inNuv, int& mask)
 {
 	if (v.IsObjectType<Dictionary>()) {
 		Dictionary::Ptr d = v;
 		ObjectLock olock(d);
 		for (const Dictionary::Pair& kv : d) {
-			if (std::string(kv.first.CStr()).find(SECRET) != std::string::npos) mask |= 1;
-			FindSecret(kv.second, kv.first, mask);
+			if (std::string(kv.first.CStr()).find(SECRET) != std::string::npos) mask |= inNuv ? 2 : 1;
+			FindSecret(kv.second, inNuv || l_NuvFieldNames.count(kv.first.CStr()) > 0, mask);
 		}
 	} else if (v.IsObjectType<Array>()) {
 		Array::Ptr a = v;
 		ObjectLock olock(a);
-		for (const Value& x : a) FindSecret(x, "", mask);
+		for (const Value& x : a) FindSecret(x, inNuv, mask);
+	} else if (v.IsNumber()) {
+		if ((double)v == NUM_MARKER) mask |= inNuv ? 2 : 1;
 	} else if (v.IsString()) {
 		String sv = v;
 		if (std::string(sv.CStr()).find(SECRET) != std::string::npos)
-			mask |= (key == "password" && sv == SECRET) ? 2 : 1;
+			mask |= (inNuv && sv == SECRET) ? 2 : 1;
 	}
 }
 
@@ -289,7 +333,7 @@ static Outcome EvalConsoleSite(const String& text)
 		Dictionary::Ptr r0 = results->Get(0);
 		double code = r0->Get("code");
 		if (code == 200) {
-			FindSecret(r0->Get("result"), "", l_LeakMask);
+			FindSecret(r0->Get("result"), false, l_LeakMask);
 			return { "ok", "" };
 		}
 		String status = r0->Get("status");
@@ -301,7 +345,8 @@ static Outcome EvalConsoleSite(const String& text)
 
 static Outcome EvalAt(const std::string& site, const String& text, const Object::Ptr& target = nullptr)
 {
-	if (site == "filter") return EvalFilterSite(text);
+	if (site == "filter") return EvalFilterSite(text, l_User);
+	if (site == "filterpf") return EvalFilterSite(text, l_UserPF);
 	if (site == "console") return EvalConsoleSite(text);
 	if (site == "event") {
 		Dictionary::Ptr event = new Dictionary({ { "type", "CheckResult" }, { "host", "c19-host" }, { "timestamp", 1000 } });
@@ -355,18 +400,23 @@ static Snap l_Before;
 static bool l_HaveBefore = false;
 
 /* Evaluate, snapshot, print the observation. */
+static bool l_GenOnly = false;               /* generator child: collect the op lines, evaluate nothing */
+static std::vector<std::string> l_Lines;
+
 static void Observe(const std::string& opPrefix, const std::string& site, const std::string& src, const Object::Ptr& target = nullptr)
 {
+	if (l_GenOnly) { l_Lines.push_back(opPrefix + " src=" + Hex(src)); return; }
 	if (!l_HaveBefore) { l_Before = TakeSnap(); l_HaveBefore = true; }
 	l_Current = opPrefix + " src=" + Hex(src);
 	l_LeakMask = 0;
+	l_ValueLeak = false;
 	Outcome oc = EvalAt(site, src, target);
 	Application::GetTP().Restart();      /* join anything the evaluation queued */
 	Snap after = TakeSnap();
 	char chg[4] = { after.g != l_Before.g ? 'g' : '-', after.o != l_Before.o ? 'o' : '-', after.f != l_Before.f ? 'f' : '-', 0 };
 	/* leak: 0 none; 1 the secret is in a computed value or an error text; 2 only as the `password` field of
 	 * a config object that the console serialized with all its fields */
-	int leak = (oc.text.find(SECRET) != std::string::npos || (l_LeakMask & 1)) ? 1 : ((l_LeakMask & 2) ? 2 : 0);
+	int leak = (oc.text.find(SECRET) != std::string::npos || oc.text.find("987654321") != std::string::npos || (l_LeakMask & 1) || l_ValueLeak) ? 1 : ((l_LeakMask & 2) ? 2 : 0);
 	printf("%s | %s chg=%s leak=%d\n", l_Current.c_str(), oc.kind.c_str(), chg, leak);
 	fflush(stdout);
 	l_Before = after;
@@ -474,8 +524,8 @@ static const Canned l_Canned[] = {
 	{ "this", "(getScope this)", 1 },
 	{ "globals.C19Global", "(index (getScope globals) (str C19Global))", 1 },
 	{ "C19Dict.a", "(index (var C19Dict) (str a))", 1 },
-	{ "&C19Global", "(ref C19Global)", 1 },
-	{ "*&C19Global", "(deref (ref C19Global))", 1 },
+	{ "&C19Global", "(ref (var C19Global))", 1 },
+	{ "*&C19Global", "(deref (ref (var C19Global)))", 1 },
 	{ "String(1)", "(call (type String) (num 1))", 1 },
 	{ "Array()", "(call (type Array))", 1 },
 	{ "Dictionary()", "(call (type Dictionary))", 1 },
@@ -493,6 +543,49 @@ static const Canned l_Canned[] = {
 	{ "len.call(null, \"x\")", "(mcall (fn System#len) call (empty) (str x))", 1 },
 	{ "get_object(Host, \"c19-host\").modify_attribute(\"display_name\", \"x\")", "(mcall (obj c19-host) modify_attribute (str display_name) (str x))", 1 },
 	{ "get_object(Host, \"c19-host\").name", "(index (obj c19-host) (str name))", 1 },
+	/* references: a read through a reference obeys the no_user_view rule, a write through one is refused */
+	{ "*(&get_object(ApiUser, \"c19-user\").password)", "(deref (ref (index (obj c19-user) (str password))))", 1 },
+	{ "(&get_object(ApiUser, \"c19-user\").password).get()", "(mcall (ref (index (obj c19-user) (str password))) get)", 1 },
+	{ "*(&get_object(ApiUser, \"c19-user\")[\"password\"])", "(deref (ref (index (obj c19-user) (str password))))", 1 },
+	{ "*(&get_object(Host, \"c19-host\").display_name)", "(deref (ref (index (obj c19-host) (str display_name))))", 1 },
+	{ "(&get_object(Host, \"c19-host\").display_name).get()", "(mcall (ref (index (obj c19-host) (str display_name))) get)", 1 },
+	{ "(&get_object(Host, \"c19-host\").display_name).set(\"x\")", "(mcall (ref (index (obj c19-host) (str display_name))) set (str x))", 1 },
+	{ "*(&get_object(Host, \"c19-host\").display_name) = \"x\"", "(setDeref (ref (index (obj c19-host) (str display_name))) literal (str x))", 1 },
+	{ "(&globals.C19Global).set(1)", "(mcall (ref (index (getScope globals) (str C19Global))) set (num 1))", 1 },
+	{ "(&globals.C19RefNew_%S).set(1)", "(mcall (ref (index (getScope globals) (str C19RefNew_%S))) set (num 1))", 1 },
+	{ "*(&globals.C19Global)", "(deref (ref (index (getScope globals) (str C19Global))))", 1 },
+	{ "(&C19Global).get()", "(mcall (ref (var C19Global)) get)", 1 },
+	{ "*(&C19Global) += 1", "(setDeref (ref (var C19Global)) add (num 1))", 1 },
+	/* assignments nested two and more levels through MISSING keys: the failed assignment must not leave the
+	 * intermediate dictionaries behind (init_dict, expression.cpp:758-776) */
+	{ "get_object(Host, \"c19-host\").vars.c19_%S.injected = 1", "(setField (index (index (obj c19-host) (str vars)) (str c19_%S)) injected literal (num 1))", 1 },
+	{ "get_object(Host, \"c19-host\").vars.c19a_%S.b.c.injected = 1", "(setField (index (index (index (index (obj c19-host) (str vars)) (str c19a_%S)) (str b)) (str c)) injected literal (num 1))", 1 },
+	{ "host.vars.c19h_%S.injected = 1", "(setField (index (index (var host) (str vars)) (str c19h_%S)) injected literal (num 1))", 1 },
+	{ "globals.C19Demo2_%S.injected = 1", "(setField (index (getScope globals) (str C19Demo2_%S)) injected literal (num 1))", 1 },
+	{ "globals.C19Demo2b_%S.a.b.injected += 1", "(setField (index (index (index (getScope globals) (str C19Demo2b_%S)) (str a)) (str b)) injected add (num 1))", 1 },
+	{ "C19Dict.missing_%S.deeper.injected = 1", "(setField (index (index (var C19Dict) (str missing_%S)) (str deeper)) injected literal (num 1))", 1 },
+	{ "C19Dict.sub.missing_%S.injected = 1", "(setField (index (index (var C19Dict) (str sub)) (str missing_%S)) injected literal (num 1))", 1 },
+	{ "C19NsLive.missing_%S.injected = 1", "(setField (index (var C19NsLive) (str missing_%S)) injected literal (num 1))", 1 },
+	{ "C19UnknownRoot_%S.a.b = 1", "(setField (index (var C19UnknownRoot_%S) (str a)) b literal (num 1))", 1 },
+	{ "var c19_lv.a.b = 1", "(setField (index (index (getScope locals) (str c19_lv)) (str a)) b literal (num 1))", 1 },
+	{ "try { get_object(Host, \"c19-host\").vars.c19t_%S.injected = 1 } except { 1 }", "(tryExcept (dict 1 (setField (index (index (obj c19-host) (str vars)) (str c19t_%S)) injected literal (num 1))) (dict 1 (num 1)))", 1 },
+	/* unsafe natives as callbacks of every higher-order safe native */
+	{ "[ \"C19Global\" ].map(globals.remove)", "(mcall (array (str C19Global)) map (index (getScope globals) (str remove)))", 0 },
+	{ "[ \"C19Global\" ].filter(globals.remove)", "(mcall (array (str C19Global)) filter (index (getScope globals) (str remove)))", 0 },
+	{ "[ \"C19Global\" ].any(globals.remove)", "(mcall (array (str C19Global)) any (index (getScope globals) (str remove)))", 0 },
+	{ "[ \"C19Global\" ].all(globals.remove)", "(mcall (array (str C19Global)) all (index (getScope globals) (str remove)))", 0 },
+	{ "[ \"C19HofR_%S\", 42 ].reduce(globals.set)", "(mcall (array (str C19HofR_%S) (num 42)) reduce (index (getScope globals) (str set)))", 0 },
+	{ "[ \"C19HofS_%S\", 42 ].sort(globals.set)", "(mcall (array (str C19HofS_%S) (num 42)) sort (index (getScope globals) (str set)))", 0 },
+	{ "[ 1 ].map(log)", "(mcall (array (num 1)) map (var log))", 0 },
+	{ "[ 1 ].filter(log)", "(mcall (array (num 1)) filter (var log))", 0 },
+	{ "[ 1 ].any(log)", "(mcall (array (num 1)) any (var log))", 0 },
+	{ "[ 1 ].all(log)", "(mcall (array (num 1)) all (var log))", 0 },
+	{ "[ 1, 2 ].reduce(log)", "(mcall (array (num 1) (num 2)) reduce (var log))", 0 },
+	{ "[ 2, 1 ].sort(log)", "(mcall (array (num 2) (num 1)) sort (var log))", 0 },
+	{ "[ 9 ].map(C19Arr.add)", "(mcall (array (num 9)) map (index (var C19Arr) (str add)))", 0 },
+	{ "[ get_object(Host, \"c19-host\") ].map((h) => { h.display_name = \"x\" })", "(mcall (array (num 1)) map (function lambda (num 1)))", 0 },
+	{ "[ [ \"C19Nested_%S\", 1 ] ].map((p) => p.reduce(globals.set))", "(mcall (array (num 1)) map (function lambda (num 1)))", 0 },
+	{ "[ \"C19Global\" ].map(globals.remove.call)", "(mcall (array (str C19Global)) map (index (index (getScope globals) (str remove)) (str call)))", 0 },
 	/* hidden values must not come back through any safe function */
 	{ "get_object(ApiUser, \"c19-user\").password", "(index (obj c19-user) (str password))", 1 },
 	{ "get_object(ApiUser, \"c19-user\")[\"password\"]", "(index (obj c19-user) (str password))", 1 },
@@ -573,6 +666,16 @@ static Prog GenExpr(Rng& rng, int depth, int& id)
 		default: {
 			static const char *hof[] = { "map", "filter", "any", "all", "sort", "reduce" };
 			const char *m = hof[rng.below(6)];
+			if (rng.below(3) == 0) {     /* an unsafe native as the callback */
+				static const std::pair<const char *, const char *> cbs[] = {
+					{ "log", "(var log)" }, { "globals.set", "(index (getScope globals) (str set))" },
+					{ "globals.remove", "(index (getScope globals) (str remove))" }, { "C19Arr.add", "(index (var C19Arr) (str add))" },
+					{ "C19Dict.remove", "(index (var C19Dict) (str remove))" },
+				};
+				auto& cb = cbs[rng.below(5)];
+				return { std::string("[ \"C19Global\", 1 ].") + m + "(" + cb.first + ")",
+					std::string("(mcall (array (str C19Global) (num 1)) ") + m + " " + cb.second + ")", true };
+			}
 			Prog b = GenStmt(rng, depth - 1, id);
 			return { std::string("C19Arr.") + m + "((x) => { " + b.src + " })",
 				std::string("(mcall (var C19Arr) ") + m + " (function lambda (dict 1 " + b.abs + ")))", true };
@@ -584,6 +687,14 @@ static Prog GenStmtRaw(Rng& rng, int depth, int& id)
 {
 	int k = (int)rng.below(depth > 0 ? 14 : 8);
 	std::string n = std::to_string(++id);
+	if (rng.below(8) == 0) {          /* assignment through missing keys, 2-3 levels */
+		switch (rng.below(4)) {
+			case 0: return { "get_object(Host, \"c19-host\").vars.g" + n + ".x = 1", "(setField (index (index (obj c19-host) (str vars)) (str g" + n + ")) x literal (num 1))", false };
+			case 1: return { "globals.C19Gen_" + n + ".a.b = 1", "(setField (index (index (getScope globals) (str C19Gen_" + n + ")) (str a)) b literal (num 1))", false };
+			case 2: return { "C19Dict.m" + n + ".x += 1", "(setField (index (var C19Dict) (str m" + n + ")) x add (num 1))", false };
+			default: return { "(&globals.C19GenRef_" + n + ").set(1)", "(mcall (ref (index (getScope globals) (str C19GenRef_" + n + "))) set (num 1))", false };
+		}
+	}
 	switch (k) {
 		case 0: case 1: return GenExpr(rng, depth, id);
 		case 2: return { "C19Global = 1", "(setVar C19Global literal (num 1))", false };
@@ -702,12 +813,16 @@ static void WriteFile(const std::string& p, const std::string& content)
 	f << content;
 }
 
+static void PlantMarkers(const Object::Ptr& inst);
+
 static void Setup()
 {
-	char tmpl[256];
-	snprintf(tmpl, sizeof tmpl, "%s/c19-data-XXXXXX", getenv("VERIF_C19_TMP") ? getenv("VERIF_C19_TMP") : "/tmp");
-	char *d = mkdtemp(tmpl);
-	if (!d) { perror("mkdtemp"); _exit(2); }
+	for (const Type::Ptr& t : Type::GetAllTypes())
+		for (int i = 0; i < t->GetFieldCount(); i++)
+			if (t->GetFieldInfo(i).Attributes & FANoUserView) l_NuvFieldNames.insert(t->GetFieldInfo(i).Name);
+
+	const char *d = getenv("VERIF_C19_DATADIR");      /* created by the parent, shared by all children */
+	if (!d) { fprintf(stderr, "VERIF_C19_DATADIR not set\n"); _exit(2); }
 	l_DataDir = d;
 	Configuration::DataDir = l_DataDir;
 	std::string dd = d;
@@ -734,6 +849,21 @@ static void Setup()
 	l_User->SetPermissions(new Array({ "*" }));
 	l_User->Register();
 
+	/* a user whose permission for the queried type has a permission filter (a script function, as `{{ … }}` in
+	 * an ApiUser's `permissions` yields): FilterUtility evaluates it next to the user's sandboxed filter */
+	{
+		std::unique_ptr<Expression> fe = ConfigCompiler::CompileText("<c19-permission-filter>", "{{ host.name != \"\" }}");
+		ScriptFrame pframe(true);
+		Value pfilter = fe->Evaluate(pframe);
+		l_UserPF = new ApiUser();
+		l_UserPF->SetName("c19-user-pf");
+		l_UserPF->SetPassword(SECRET);
+		l_UserPF->SetPermissions(new Array({ new Dictionary({ { "permission", "objects/query/Host" }, { "filter", pfilter } }), "console" }));
+		l_UserPF->Register();
+	}
+	PlantMarkers(l_User);          /* same state whether or not an ApiUser line ran before */
+	PlantMarkers(l_UserPF);
+
 	ScriptGlobal::Set("C19Global", 5);
 	ScriptGlobal::Set("C19Arr", new Array({ 3, 1, 2 }));
 	ScriptGlobal::Set("C19Dict", new Dictionary({ { "a", "x" }, { "sub", new Dictionary() } }));
@@ -741,17 +871,40 @@ static void Setup()
 	ScriptGlobal::Set("TicketSalt", "c19-salt");   /* a plain global: readable by design (not an attribute) */
 }
 
-static void ExitHook()
+/* ---------------------------------------------------------------- main */
+
+/* Plant a recognisable value in every no_user_view field of an instance (type-directed). */
+static void PlantMarkers(const Object::Ptr& inst)
 {
-	if (!l_Finished) {
-		/* something terminated the process from inside an evaluation */
-		printf("%s | exited chg=g-- leak=0\n", l_Current.empty() ? "X" : l_Current.c_str());
-		fflush(stdout);
+	Type::Ptr t = inst->GetReflectionType();
+	for (int i = 0; i < t->GetFieldCount(); i++) {
+		Field f = t->GetFieldInfo(i);
+		if (!(f.Attributes & FANoUserView)) continue;
+		std::string tn = f.TypeName ? f.TypeName : "";
+		try {
+			if (tn == "String") inst->SetField(i, SECRET);
+			else if (tn == "Number" || tn == "Timestamp") inst->SetField(i, NUM_MARKER);
+			else if (tn == "Array") inst->SetField(i, new Array({ SECRET }));
+			else if (tn == "Dictionary") inst->SetField(i, new Dictionary({ { "k", SECRET } }));
+		} catch (const std::exception&) { }
 	}
 }
 
-/* ---------------------------------------------------------------- main */
+static Object::Ptr TargetForH(const std::string& type)
+{
+	Object::Ptr inst;
+	if (type == "ApiUser") inst = l_User;
+	else {
+		Type::Ptr t = Type::GetByName(type);
+		if (!t) return nullptr;
+		try { inst = t->Instantiate({}); } catch (const std::exception&) { return nullptr; }
+	}
+	if (inst) PlantMarkers(inst);
+	return inst;
+}
 
+/* Every no_user_view field of every instantiable type, through every read path; whole-object serialisers once
+ * per type.  Two visible fields per type as a control. */
 static void GenHidden()
 {
 	std::vector<String> names;
@@ -765,37 +918,60 @@ static void GenHidden()
 		for (int i = 0; i < t->GetFieldCount(); i++)
 			if (t->GetFieldInfo(i).Attributes & FANoUserView) any = true;
 		if (!any) continue;
-		Object::Ptr inst;
-		if (tn == "Host") inst = l_Host;
-		else if (tn == "ApiUser") inst = l_User;
-		else {
-			try { inst = t->Instantiate({}); } catch (const std::exception&) { continue; }
-		}
-		if (!inst) continue;
-		l_HaveBefore = false;     /* instantiation itself is not under test */
+		if (!TargetForH(tn.CStr())) continue;
 		int shown = 0;
 		for (int i = 0; i < t->GetFieldCount(); i++) {
 			Field f = t->GetFieldInfo(i);
 			bool nuv = (f.Attributes & FANoUserView) != 0;
-			if (!nuv && shown >= 2) continue;      /* two visible fields per type as a control */
+			if (!nuv && shown >= 2) continue;
 			if (!nuv) shown++;
-			for (int how = 0; how < 2; how++) {
-				std::string src = how == 0 ? std::string("obj.") + f.Name : std::string("obj[\"") + f.Name + "\"]";
+			std::string fn = f.Name;
+			const std::pair<const char *, std::string> paths[] = {
+				{ "dot", "obj." + fn },
+				{ "idx", "obj[\"" + fn + "\"]" },
+				{ "deref", "*(&obj." + fn + ")" },
+				{ "refget", "(&obj." + fn + ").get()" },
+				{ "derefidx", "*(&obj[\"" + fn + "\"])" },
+			};
+			for (auto& pth : paths) {
 				std::ostringstream op;
-				op << "H fobj type=" << tn << " field=" << f.Name << " nuv=" << (nuv ? 1 : 0);
-				Observe(op.str(), "fobj", src, inst);
+				op << "H fobj type=" << tn << " field=" << fn << " nuv=" << (nuv ? 1 : 0) << " how=" << pth.first;
+				Observe(op.str(), "fobj", pth.second);
 			}
 		}
+		/* serialisation natives on the whole object: nothing hidden may come back in the value */
+		static const std::pair<const char *, const char *> ser[] = {
+			{ "Json.encode(obj)", "(call (fn Json#encode) (var obj))" },
+			{ "string(obj)", "(call (fn System#string) (var obj))" },
+			{ "obj.to_string()", "(mcall (var obj) to_string)" },
+			{ "keys(obj)", "(call (fn System#keys) (var obj))" },
+			{ "Json.encode(obj.clone())", "(call (fn Json#encode) (mcall (var obj) clone))" },
+			{ "Json.encode([ obj ])", "(call (fn Json#encode) (array (var obj)))" },
+			{ "[ obj ].map(Json.encode)", "(mcall (array (var obj)) map (index (var Json) (str encode)))" },
+			{ "[ obj ].join(\",\")", "(mcall (array (var obj)) join (str ,))" },
+			{ "\"\" + obj", "(binop add (str) (var obj))" },
+		};
+		for (auto& sp : ser) {
+			std::string abs = sp.second;
+			for (auto& ch : abs) if (ch == ' ') ch = ',';
+			if (std::string(sp.first) == "[ obj ].join(\",\")") abs = "(mcall,(array,(var,obj)),join,(str))";
+			std::ostringstream op;
+			op << "P fobj cmp=0 root=" << RootKind(sp.first) << " abs=" << abs << " type=" << tn;
+			Observe(op.str(), "fobj", sp.first);
+		}
 	}
-}
-
-static Object::Ptr TargetForH(const std::string& type)
-{
-	if (type == "Host") return l_Host;
-	if (type == "ApiUser") return l_User;
-	Type::Ptr t = Type::GetByName(type);
-	if (!t) return nullptr;
-	try { return t->Instantiate({}); } catch (const std::exception&) { return nullptr; }
+	/* registered objects through get_object at the value-returning site */
+	static const char *gets[] = {
+		"get_object(ApiUser, \"c19-user\").password", "get_object(ApiUser, \"c19-user\")[\"password\"]",
+		"*(&get_object(ApiUser, \"c19-user\").password)", "(&get_object(ApiUser, \"c19-user\").password).get()",
+		"get_objects(ApiUser)[0].password", "get_objects(ApiUser).map((u) => u.password)",
+	};
+	for (const char *g : gets)
+		for (const char *site : { "console", "filter", "filterpf", "event" }) {
+			std::ostringstream op;
+			op << "H " << site << " type=ApiUser field=password nuv=1 how=getobj";
+			Observe(op.str(), site, g);
+		}
 }
 
 static std::string Tok(const std::string& line, const std::string& key)
@@ -807,77 +983,204 @@ static std::string Tok(const std::string& line, const std::string& key)
 	return line.substr(p, e == std::string::npos ? std::string::npos : e - p);
 }
 
+static const char *l_Sites[] = { "filter", "filterpf", "event", "console" };
+static const int l_SitesN = 4;
+
+/* Everything `gen` evaluates, as op lines (run in the generator child: nothing is evaluated here). */
+static void GenLines(uint64_t seed, bool thorough)
+{
+	Rng rng(seed);
+	int skipped = 0;
+	std::map<std::string, NativeRef> natives = CollectNatives(skipped);
+	{
+		std::string t = "T natives";
+		for (auto& kv : natives) t += " " + kv.first + "=" + (kv.second.safe ? "1" : "0");
+		l_Lines.push_back(t);
+		l_Lines.push_back("T skipped_prototype_methods " + std::to_string(skipped));
+	}
+
+	/* 1. canned programs, at every site */
+	for (const Canned& c : l_Canned)
+		for (const char *site : l_Sites) {
+			std::string src = Subst(c.src, site), abs = Subst(c.abs, site);
+			for (auto& ch : abs) if (ch == ' ') ch = ',';
+			std::ostringstream op;
+			op << "P " << site << " cmp=" << c.cmp << " root=" << RootKind(src) << " abs=" << abs;
+			Observe(op.str(), site, src);
+		}
+
+	/* 1b. nested programs combining statement forms (guarded statements inside try/except inside lambdas
+	 * passed to safe higher-order natives, conditionals, short-circuit operators, loops, assignments through
+	 * missing keys, unsafe natives as callbacks) */
+	{
+		int nested = thorough ? 3000 : 500, id = 0;
+		for (int i = 0; i < nested; i++) {
+			Prog p;
+			for (int t = 0; t < 20; t++) {     /* really nested: at least one block */
+				p = GenStmt(rng, 2 + (int)rng.below(thorough ? 3 : 2), id);
+				if (p.src.find('{') != std::string::npos) break;
+			}
+			const char *site = l_Sites[rng.below(l_SitesN)];
+			std::string abs = p.abs;
+			for (auto& ch : abs) if (ch == ' ') ch = ',';
+			std::ostringstream op;
+			op << "P " << site << " cmp=" << (p.ho ? 0 : 1) << " root=" << RootKind(p.src) << " abs=" << abs;
+			Observe(op.str(), site, p.src);
+		}
+	}
+
+	/* 2. hidden fields of every type, every read path */
+	GenHidden();
+
+	/* 3. every native reachable from the global namespace, type-directed + seeded arguments */
+	std::vector<NativeRef> order;
+	for (auto& kv : natives) if (!Dangerous(kv.first)) order.push_back(kv.second);
+	for (auto& kv : natives) if (Dangerous(kv.first)) order.push_back(kv.second);
+	int tuples = thorough ? 24 : 6;
+	for (const NativeRef& nr : order) {
+		for (int k = 0; k < tuples; k++) {
+			std::string src = nr.callee + "(";
+			int n = k == 0 ? nr.arity : (k == 1 ? 0 : (int)rng.below(nr.arity + 2));
+			for (int i = 0; i < n; i++) {
+				if (i) src += ", ";
+				src += Subst(l_ArgPool[k == 0 ? (i * 7 + 1) % l_ArgPoolN : rng.below(l_ArgPoolN)], "x");
+			}
+			src += ")";
+			const char *site = l_Sites[(k + (int)rng.below(l_SitesN)) % l_SitesN];
+			std::ostringstream op;
+			op << "N " << site << " name=" << nr.name << " safe=" << (nr.safe ? 1 : 0);
+			Observe(op.str(), site, src);
+		}
+	}
+}
+
+/* Evaluate one op line (executor child). */
+static bool ExecLine(const std::string& line)
+{
+	if (line.size() < 3 || (line[0] != 'P' && line[0] != 'N' && line[0] != 'H')) return false;
+	size_t sp = line.find(' ', 2);
+	size_t sp2 = line.rfind(" src=");
+	if (sp == std::string::npos || sp2 == std::string::npos) return false;
+	std::string site = line.substr(2, sp - 2);
+	std::string prefix = line.substr(0, sp2);
+	Object::Ptr target;
+	std::string type = Tok(line, "type");
+	if (site == "fobj") {
+		target = TargetForH(type.empty() ? "Host" : type);
+		if (!target) return false;
+		l_HaveBefore = false;            /* instantiation and marker planting are not under test */
+	}
+	Observe(prefix, site, UnHex(Tok(line, "src")), target);
+	return true;
+}
+
+static int PerProgramAlarm()
+{
+	const char *e = getenv("VERIF_C19_ALARM");
+	int v = e ? atoi(e) : 0;
+	return v > 0 ? v : 20;
+}
+
+/* Run the op lines in forked children (see the header comment). */
+static void RunBatch(const std::vector<std::string>& lines)
+{
+	volatile size_t *cur = (volatile size_t *)mmap(nullptr, 4096, PROT_READ | PROT_WRITE, MAP_SHARED | MAP_ANONYMOUS, -1, 0);
+	if (cur == MAP_FAILED) { perror("mmap"); _exit(2); }
+	size_t start = 0;
+	int hangs = 0, deaths = 0;
+	while (start < lines.size()) {
+		fflush(stdout);
+		cur[0] = start;
+		cur[1] = 0;                          /* 1 = child finished the whole batch */
+		pid_t pid = fork();
+		if (pid < 0) { perror("fork"); _exit(2); }
+		if (pid == 0) {
+			signal(SIGALRM, SIG_DFL);
+			alarm(120);                      /* start-up itself */
+			InitIcinga();
+			Setup();
+			int secs = PerProgramAlarm();
+			for (size_t i = start; i < lines.size(); i++) {
+				cur[0] = i;
+				alarm(secs);                 /* a hang of the real code ends the child with SIGALRM */
+				if (!ExecLine(lines[i])) { alarm(0); fprintf(stderr, "bad line: %s\n", lines[i].substr(0, 200).c_str()); fflush(stdout); _exit(2); }
+				fflush(stdout);
+			}
+			alarm(0);
+			cur[1] = 1;
+			fflush(stdout);
+			_exit(0);
+		}
+		int status = 0;
+		while (waitpid(pid, &status, 0) < 0 && errno == EINTR) { }
+		if (cur[1] == 1) break;
+		if (WIFEXITED(status) && WEXITSTATUS(status) == 2) _exit(2);   /* unreadable op line: usage error */
+		size_t i = cur[0];
+		int sig = WIFSIGNALED(status) ? WTERMSIG(status) : 0;          /* 0: the program made the process exit */
+		/* a partially written line of the dead child may precede this one: start on a fresh line */
+		printf("\nX %d %s\n", sig, lines[i].c_str());
+		start = i + 1;
+		deaths++;
+		if (sig == SIGALRM) hangs++;
+		if (hangs >= 4 || deaths >= 12) {
+			/* the verdict is settled; do not spend the tier's budget on more of the same */
+			printf("T aborted after %d hangs / %d deaths, %zu lines not run\n", hangs, deaths, lines.size() - start);
+			break;
+		}
+	}
+	fflush(stdout);
+}
+
 int main(int argc, char **argv)
 {
 	if (argc < 2) { fprintf(stderr, "usage: h_c19 gen|ops ...\n"); return 2; }
-	InitIcinga();
-	Setup();
-	atexit(ExitHook);
+	static char outbuf[1 << 16];
+	setvbuf(stdout, outbuf, _IOFBF, sizeof outbuf);
 
-	static const char *sites[] = { "filter", "event", "console" };
+	/* the data directory all children share */
+	char tmpl[256];
+	snprintf(tmpl, sizeof tmpl, "%s/c19-data-XXXXXX", getenv("VERIF_C19_TMP") ? getenv("VERIF_C19_TMP") : "/tmp");
+	char *dd = mkdtemp(tmpl);
+	if (!dd) { perror("mkdtemp"); return 2; }
+	setenv("VERIF_C19_DATADIR", dd, 1);
+	std::string rm = "rm -rf '" + std::string(dd) + "'";
+
+	std::vector<std::string> lines;
 	std::string mode = argv[1];
 	if (mode == "gen") {
 		uint64_t seed = strtoull(argOr(argc, argv, "--seed", "1"), nullptr, 10);
 		bool thorough = std::string(argOr(argc, argv, "--tier", "quick")) == "thorough";
-		Rng rng(seed);
-
-		int skipped = 0;
-		std::map<std::string, NativeRef> natives = CollectNatives(skipped);
-		printf("T natives");
-		for (auto& kv : natives) printf(" %s=%d", kv.first.c_str(), kv.second.safe ? 1 : 0);
-		printf("\nT skipped_prototype_methods %d\n", skipped);
-
-		/* 1. canned programs, at every site */
-		for (const Canned& c : l_Canned)
-			for (const char *site : sites) {
-				std::string src = Subst(c.src, site), abs = Subst(c.abs, site);
-				for (auto& ch : abs) if (ch == ' ') ch = ',';
-				std::ostringstream op;
-				op << "P " << site << " cmp=" << c.cmp << " root=" << RootKind(src) << " abs=" << abs;
-				Observe(op.str(), site, src);
-			}
-
-		/* 1b. nested programs combining statement forms (guarded statements inside try/except inside lambdas
-		 * passed to safe higher-order natives, conditionals, short-circuit operators, loops) */
-		{
-			int nested = thorough ? 3000 : 400, id = 0;
-			for (int i = 0; i < nested; i++) {
-				Prog p;
-				for (int t = 0; t < 20; t++) {     /* really nested: at least one block */
-					p = GenStmt(rng, 2 + (int)rng.below(thorough ? 3 : 2), id);
-					if (p.src.find('{') != std::string::npos) break;
-				}
-				const char *site = sites[rng.below(3)];
-				std::string abs = p.abs;
-				for (auto& ch : abs) if (ch == ' ') ch = ',';
-				std::ostringstream op;
-				op << "P " << site << " cmp=" << (p.ho ? 0 : 1) << " root=" << RootKind(p.src) << " abs=" << abs;
-				Observe(op.str(), site, p.src);
-			}
+		/* generator child: reflection + compilation need an initialised process, the parent stays clean */
+		int fds[2];
+		if (pipe(fds) != 0) { perror("pipe"); return 2; }
+		pid_t pid = fork();
+		if (pid < 0) { perror("fork"); return 2; }
+		if (pid == 0) {
+			close(fds[0]);
+			alarm(300);
+			InitIcinga();
+			Setup();
+			l_GenOnly = true;
+			GenLines(seed, thorough);
+			FILE *out = fdopen(fds[1], "w");
+			for (auto& l : l_Lines) { fputs(l.c_str(), out); fputc('\n', out); }
+			fflush(out);
+			_exit(0);
 		}
-
-		/* 2. hidden fields of every type */
-		GenHidden();
-
-		/* 3. every native reachable from the global namespace, type-directed + seeded arguments */
-		std::vector<NativeRef> order;
-		for (auto& kv : natives) if (!Dangerous(kv.first)) order.push_back(kv.second);
-		for (auto& kv : natives) if (Dangerous(kv.first)) order.push_back(kv.second);
-		int tuples = thorough ? 24 : 6;
-		for (const NativeRef& nr : order) {
-			for (int k = 0; k < tuples; k++) {
-				std::string src = nr.callee + "(";
-				int n = k == 0 ? nr.arity : (k == 1 ? 0 : (int)rng.below(nr.arity + 2));
-				for (int i = 0; i < n; i++) {
-					if (i) src += ", ";
-					src += Subst(l_ArgPool[k == 0 ? (i * 7 + 1) % l_ArgPoolN : rng.below(l_ArgPoolN)], "x");
-				}
-				src += ")";
-				const char *site = sites[(k + (int)rng.below(3)) % 3];
-				std::ostringstream op;
-				op << "N " << site << " name=" << nr.name << " safe=" << (nr.safe ? 1 : 0);
-				Observe(op.str(), site, src);
-			}
+		close(fds[1]);
+		FILE *in = fdopen(fds[0], "r");
+		std::string cur;
+		int ch;
+		while ((ch = fgetc(in)) != EOF) {
+			if (ch == '\n') { lines.push_back(cur); cur.clear(); } else cur += (char)ch;
+		}
+		fclose(in);
+		int status = 0;
+		while (waitpid(pid, &status, 0) < 0 && errno == EINTR) { }
+		if (!WIFEXITED(status) || WEXITSTATUS(status) != 0 || lines.size() < 100) {
+			fprintf(stderr, "generator child failed (status %d, %zu lines)\n", status, lines.size());
+			if (system(rm.c_str())) { }
+			return 3;
 		}
 	} else if (mode == "ops") {
 		if (argc < 3) return 2;
@@ -887,24 +1190,25 @@ int main(int argc, char **argv)
 			size_t bar = line.find(" | ");
 			if (bar != std::string::npos) line = line.substr(0, bar);
 			while (!line.empty() && (line.back() == ' ' || line.back() == '\r')) line.pop_back();
-			if (line.empty()) continue;
-			if (line[0] == 'T' || line[0] == 'X') continue;
-			if (line[0] != 'P' && line[0] != 'N' && line[0] != 'H') { fprintf(stderr, "bad line: %s\n", line.c_str()); return 2; }
-			size_t sp = line.find(' ', 2);
-			std::string site = line.substr(2, sp - 2);
-			std::string hex = Tok(line, "src");
-			size_t sp2 = line.rfind(" src=");
-			std::string prefix = line.substr(0, sp2);
-			Object::Ptr target;
-			if (line[0] == 'H') { target = TargetForH(Tok(line, "type")); l_HaveBefore = false; }
-			Observe(prefix, site, UnHex(hex), target);
+			if (line.empty() || line[0] == 'T') continue;
+			if (line[0] == 'X') {                      /* `X <sig> <op line>`: replay the op line */
+				size_t p1 = line.find(' ', 2);
+				if (p1 == std::string::npos) continue;
+				line = line.substr(p1 + 1);
+			}
+			lines.push_back(line);
 		}
 	} else {
 		return 2;
 	}
+
+	std::vector<std::string> ops;
+	for (auto& l : lines) {
+		if (!l.empty() && l[0] == 'T') printf("%s\n", l.c_str());
+		else ops.push_back(l);
+	}
+	RunBatch(ops);
 	fflush(stdout);
-	l_Finished = true;
-	std::string rm = "rm -rf '" + std::string(l_DataDir.CStr()) + "'";
 	if (system(rm.c_str())) { }
-	_exit(0);
+	return 0;
 }
